@@ -2,6 +2,7 @@ package conc
 
 import (
 	"fmt"
+	"sort"
 	"strings"
 
 	"verifharness/vsched"
@@ -21,8 +22,10 @@ func eqInts(a, b []int) bool {
 
 // CheckDelivery checks the clauses of C19 that are visible in what the consumers received:
 // every item exactly once per output, per-input order (whole order for fmap and dup), close observed.
-func CheckDelivery(c Config, o *Outcome) []string {
-	var bad []string
+// pending: the witness class "dupchan-order" — a slice-of-channels Join given the SAME channel at several
+// positions delivers every item of that channel exactly once but not in order (two forwarders share it);
+// reported separately until it is decided whether duplicated inputs are within the property.
+func CheckDelivery(c Config, o *Outcome) (bad, pending []string) {
 	switch c.Sys {
 	case "fmap":
 		want := make([]int, len(c.Items[0]))
@@ -58,7 +61,14 @@ func CheckDelivery(c Config, o *Outcome) []string {
 		}
 		for i := range per {
 			if !eqInts(per[i], c.Items[i]) {
-				bad = append(bad, fmt.Sprintf("items of input %d received as %v, sent %v (exactly once, in order)", i, per[i], c.Items[i]))
+				msg := fmt.Sprintf("items of input %d received as %v, sent %v (exactly once, in order)", i, per[i], c.Items[i])
+				srt := append([]int{}, per[i]...)
+				sort.Ints(srt)
+				if c.Duplicated(i) && eqInts(srt, c.Items[i]) {
+					pending = append(pending, fmt.Sprintf("input %d occurs %v in the slice: %s", i, c.Slice, msg))
+				} else {
+					bad = append(bad, msg)
+				}
 			}
 		}
 	}
@@ -67,7 +77,7 @@ func CheckDelivery(c Config, o *Outcome) []string {
 			bad = append(bad, fmt.Sprintf("consumer of output %d never observed the close", k+1))
 		}
 	}
-	return bad
+	return bad, pending
 }
 
 func isInput(ch string) bool {
